@@ -79,7 +79,7 @@ class FunctionReport:
         self.outcomes = []
 
 
-def verify_function(contract, registry, label_prefix="", feas_timeout_ms=500):
+def verify_function(contract, registry, label_prefix="", feas_timeout_ms=250):
     """symbolically execute the real function against its contract; returns a FunctionReport with
     undischarged obligations (solver.py decides them)"""
     rep = FunctionReport(contract)
@@ -140,6 +140,7 @@ def verify_function(contract, registry, label_prefix="", feas_timeout_ms=500):
         done = eng.explore(run)
         stale = [k for k in contract.ghost if k not in eng.ghost_hits]
         rep.stale_ghost = stale      # anchors that no longer occur in the body: the ghost update is simply not made; obligations decide
+        rep.vacuous_calls = sorted(eng.vacuous_calls)
         rep.paths = len(done)
         rep.outcomes = [(d[2]) for d in done]
         rep.obligations = list(eng.obligations.values())
